@@ -53,6 +53,9 @@ def comment_payloads(rng, kind, n):
         out.append(('own-block-multi', f'/* {tag}\n {h.replace("*/", "")}\n*/'))
         out.append(('own-block-stars', rng.choice([f'/** {tag} **/', '/***/', f'/* {tag} ***/', f'/*** {tag} * / * **/', '/**/'])))
     elif kind.startswith('eol:'):
+        # a comment whose WHOLE text is spelled like a setting or a keyword
+        kwt = rng.choice(['pk', 'unique', 'not null', 'null', 'increment', 'primary key', "note: 'x'", 'default: 1', 'ref: > t.id', 'cascade', 'as x', '[pk]', 'unique, pk'])
+        out.append(('eol-line-keyword-text', rng.choice([f'// {kwt}', f'//{kwt}', f'/* {kwt} */', f'/*{kwt}*/'])))
         out.append(('eol-line', f'// {tag} {h}'))
         out.append(('eol-block', f'/* {tag} {h.replace("*/", "")} */'))
         out.append(('eol-block-stars', rng.choice([f'/** {tag} **/', '/***/', f'/* {tag} ***/'])))
@@ -183,6 +186,14 @@ def capture_cases(rng):
                                     lambda d: d.refs[0].comment, exp))
                         out.append((f'ref-block|{lab}', f'Table t {{\n id int\n x int\n}}\n{ab}Ref {{\n  t.id > t.x{settings}{tr}\n}}\n',
                                     lambda d: d.refs[0].comment, exp))
+    # ---- a trailing comment whose whole text is a setting word is a comment and nothing else
+    for kwt in ('pk', 'unique', 'not null', 'increment', 'primary key', 'null'):
+        for form in ('line', 'block'):
+            tr_ = f' // {kwt}' if form == 'line' else f' /* {kwt}*/'
+            out.append((f'column|trailing-keyword-text|{form}', f'Table t {{\n  first int\n  id int{tr_}\n  last int\n}}\n', lambda d: d.tables[0].columns[1].comment, kwt))
+            out.append((f'column|trailing-keyword-text|{form}', f'Table t {{\n  first int\n  id int [not null]{tr_}\n  last int\n}}\n', lambda d: d.tables[0].columns[1].comment, kwt))
+            out.append((f'index|trailing-keyword-text|{form}', f'Table t {{\n  id int\n  x int\n  indexes {{\n    x\n    id{tr_}\n  }}\n}}\n', lambda d: d.tables[0].indexes[1].comment, kwt))
+            out.append((f'enumitem|trailing-keyword-text|{form}', f'Enum e {{\n  first\n  it{tr_}\n  last\n}}\n', lambda d: d.enums[0].items[1].comment, kwt))
     # ---- an EMPTY trailing comment is still the trailing comment: it wins over the block above
     for empty in ('//', '// ', '/**/', '/* */'):
         a = txt(False)
@@ -238,6 +249,14 @@ def capture(sh, rng):
             sh.violation('capture', f'capture:wrong-comment:{label}', f'stored {got!r}, expected {exp!r}', case)
         else:
             sh.count('obs.capture_ok')
+        # the TEXT of the comment means nothing: the same template with a neutral text gives the same model otherwise
+        if exp and '\n' not in exp and text.count(exp) == 1:
+            dbn, errn = parse(text.replace(exp, 'neutral words'))
+            if errn is None:
+                dn = am.diff(am.strip_comments(walk.content(dbn)), am.strip_comments(walk.content(db)))
+                sh.count('obs.capture_text_neutrality')
+                if dn:
+                    sh.violation('inert', f'inert:comment-text-changes-the-model:{label.split("|")[0]}', f'comment text {exp!r}: ' + '; '.join(dn[:3]), case)
         # no other element of the template may have picked a comment up (templates carry exactly one commented element)
         others = [c for c in all_comments(db) if c != got]
         if others:
